@@ -151,7 +151,15 @@ static int line_to_instr(struct instr *instr_data, char *filtered_asm_str) {
   }
   // special case for push instruction with immediate
   // (used push imm16 or imm32 when immediate is greater than 0x7f)
-  if (NAME(instr_data->key, push) && instr_data->cons > MAX_SIGNED_8BIT)
+  // a negative immediate -0x80..-1 stays an imm8, down to -0x80000000 it is
+  // the 32-bit two's complement
+  if (NAME(instr_data->key, push) &&
+      IN_RANGE(instr_data->cons, NEG32BIT + NEG32BIT_CHECK, NEG80BIT - 1)) {
+    instr_data->cons &= MAX_UNSIGNED_32BIT;
+    instr_data->reduced_imm = true;
+    instr_data->key++;
+  } else if (NAME(instr_data->key, push) &&
+             instr_data->cons > MAX_SIGNED_8BIT && instr_data->cons < NEG80BIT)
     instr_data->key++;
   return EXIT_SUCCESS;
 }
